@@ -25,13 +25,14 @@ func init() {
 		Explanation: "Decides structural clauses on the server side of the Typha protocol.  Cache (snapcache): (publish) a new Breadcrumb is never written after the atomic stores that publish it; " +
 			"Breadcrumb.KVs is always a Clone() of the tree, taken after the last tree mutation of the batch; within one iteration of the update loop every tree mutation is recorded as a delta and every " +
 			"recorded delta was applied to the tree, Delete only under Value==nil and ReplaceOrInsert only under Value!=nil; the crumb linked as `next` of the current crumb is the one that becomes current; " +
+			"(dedupe) the `previous` value that SerializedUpdate.WouldBeNoOp judges an incoming update against derives only from Get on the live tree (Cache.kvs, through locals and in-package helpers), never from a published snapshot or clone, so updates earlier in the same batch are taken into account; " +
 			"(status) the pending sync status is copied into a crumb only when that crumb drains pendingUpdates (so in-sync is never announced before the updates that preceded it).  " +
 			"Connection (syncserver): (stream) the breadcrumb handed to the delta sender is the one whose snapshot was just sent (returned by SendSnapshot, or passed to the snapshot streamer on every path); " +
 			"the delta sender's breadcrumb advances only through breadcrumb.Next(); between two Next() calls the crumb's Deltas are read, and every Deltas read flows into the MsgKVs that is sent; " +
 			"a binary snapshot is bound to one crumb: SendSnapshot returns the crumb field of the snapshot object it sent, that field is set only at construction, and the function that fills the snapshot's buffer streams the KVs of that same object's crumb field; " +
 			"after a Next() the status message is sent only after the MsgKVs (or with no deltas to send); MsgSyncStatus is constructed only by the delta sender.",
 		NotDecided: "Convergence itself; the client side (sync_client.go applies messages in order); gob encoding/decoding and WouldBeNoOp's definition of 'unchanged'; per-key ordering inside one batch " +
-			"(deltas are appended in arrival order, the slice order is not analysed); that the binary snapshot's buffer is complete before/while it is read (multireadbuf) and that the cached snapshot object handed to a connection is the one that was populated.",
+			"(deltas are appended in arrival order, the slice order is not analysed); that the binary snapshot's buffer is complete before/while it is read (multireadbuf) and that the cached snapshot object handed to a connection is the one that was populated; for the de-duplication only the provenance of the compared value is decided (a live-tree Get), not that the Get is re-executed for each update nor that its key is the update's key.",
 		Assumptions: []string{
 			"go/types + go/ssa (x/tools v0.50.0) model of the current source, CGO_ENABLED=0 build, non-test files",
 			"google/btree Clone() is a copy-on-write snapshot; Get/Len/Ascend/Clone do not mutate",
@@ -53,6 +54,11 @@ func init() {
 				Old: "\t\tif upd.Value == nil {\n\t\t\t// This is either a deletion", New: "\t\tif upd.Value != nil {\n\t\t\t// This is either a deletion", Expect: "C24.publish/tree-op-guard"},
 			{Name: "new crumb becomes current without being linked from the old one", File: c24CacheFile,
 				Old: "\tatomic.StorePointer(&(oldCrumb.next), (unsafe.Pointer)(newCrumb))\n", New: "", Expect: "C24.publish/link-same-crumb"},
+			{Name: "unchanged-key test compares with the last published snapshot", File: c24CacheFile,
+				Old: "oldUpd, exists := c.kvs.Get(newUpd)", New: "oldUpd, exists := oldCrumb.KVs.Get(newUpd)", Expect: "C24.dedupe/live-tree"},
+			{Name: "unchanged-key test compares with a clone taken before the batch", File: c24CacheFile,
+				Old: "\t// Update the main trie and record the updates in the new crumb.\n\tfor _, upd := range updates {\n\t\t// Update stats.\n\t\tc.counterUpdatesTotal.Inc()\n\t\t// Pre-serialise the KV so that we only serialise once per update instead of once\n\t\t// for each client.\n\t\tnewUpd, err := syncproto.SerializeUpdate(upd)\n\t\tif err != nil {\n\t\t\tlog.WithError(err).WithField(\"upd\", upd).Error(\n\t\t\t\t\"Bug: dropping unserializable KV\")\n\t\t\tcontinue\n\t\t}\n\t\t// Update the master KV map.\n\t\toldUpd, exists := c.kvs.Get(newUpd)\n",
+				New: "\t// Update the main trie and record the updates in the new crumb.\n\tbeforeBatch := c.kvs.Clone()\n\tfor _, upd := range updates {\n\t\t// Update stats.\n\t\tc.counterUpdatesTotal.Inc()\n\t\t// Pre-serialise the KV so that we only serialise once per update instead of once\n\t\t// for each client.\n\t\tnewUpd, err := syncproto.SerializeUpdate(upd)\n\t\tif err != nil {\n\t\t\tlog.WithError(err).WithField(\"upd\", upd).Error(\n\t\t\t\t\"Bug: dropping unserializable KV\")\n\t\t\tcontinue\n\t\t}\n\t\t// Update the master KV map.\n\t\toldUpd, exists := beforeBatch.Get(newUpd)\n", Expect: "C24.dedupe/live-tree"},
 			{Name: "status published with a partial batch", File: c24CacheFile,
 				Old: "\t\tc.pendingUpdates = c.pendingUpdates[c.config.MaxBatchSize:]\n", New: "\t\tc.pendingUpdates = c.pendingUpdates[c.config.MaxBatchSize:]\n\t\tlastUpdate = true\n", Expect: "C24.status/last-batch-only"},
 			{Name: "delta sender starts from the newest crumb, not the one sent", File: c24SrvFile,
@@ -112,9 +118,12 @@ func runC24(c *Ctx) {
 	c.Rule("C24.status", "E-GUARD", "pendingStatus is copied into a crumb only when the crumb drains pendingUpdates", 1)
 	c.Rule("C24.stream", "E-ORDER/E-FLOW/E-OWN", "delta sender starts at the crumb whose snapshot was sent, advances only via Next, never skips or drops Deltas, sends status after the deltas; single status sender; binary snapshot bound to one crumb (returned crumb == serialised crumb)", 9)
 
+	c.Rule("C24.dedupe", "E-FLOW (provenance)", "an update is dropped as unchanged only after comparing it with the entry looked up in the live tree (Cache.kvs) the batch is being applied to, never with a snapshot", 1)
+
 	m.publishRules()
 	m.statusRule()
 	m.streamRules()
+	m.dedupeRules()
 }
 
 func (m *c24Model) isCrumbPtr(t types.Type) bool {
